@@ -14,7 +14,7 @@
                                cmdCd *)
 From Coq Require Import List Bool Arith NArith.
 From Coq.Strings Require Import Byte.
-From GI Require Import Lib.Bytes Gen.TsParseConsts TsParse.TsParse TsParse.TsSpec.
+From GI Require Import Lib.Bytes Gen.TsParseConsts TsParse.TsParse TsParse.TsSpec TsParse.TsHolds.
 Import ListNotations.
 Local Notation bytes := (list byte) (only parsing).
 
@@ -163,3 +163,40 @@ Fixpoint env_listing_go (m : envmap) (l : list bytes) (printed : list bytes) : o
   end.
 Definition env_listing (st : ts_env) : option (list (bytes * bytes)) :=
   env_listing_go (env_map st) (env_list st) [].
+
+(* ------------------------------------------------------------------ the history statements as one executable boolean *)
+
+Definition pick (o : option bytes) (d : bytes) : bytes := match o with Some v => v | None => d end.
+
+Fixpoint envmap_eqb (a b : envmap) : bool :=
+  match a, b with
+  | [], [] => true
+  | (k, v) :: a', (k', v') :: b' => bytes_eqb k k' && bytes_eqb v v' && envmap_eqb a' b'
+  | _, _ => false
+  end.
+
+Definition hstate_eqb (a b : hstate) : bool :=
+  words_eqb (env_list (hs_env a)) (env_list (hs_env b))
+  && envmap_eqb (env_map (hs_env a)) (env_map (hs_env b))
+  && bytes_eqb (hs_cd a) (hs_cd b).
+
+(* [history_holds h vars cd0 k] evaluates, on the concrete history h run from the initial variables
+   vars in directory cd0, the statements of the history theorems for the name k: dropping the
+   read-only commands changes nothing; ts.Getenv is the latest assignment; an executed program has
+   the directory of the latest cd as PWD and (ts.Setenv used properly, regular name other than
+   PWD) finds the value ts.Getenv gives.  Extracted with the model; the driver accumulates the
+   history of every script it is told and the runner asks this for every history script.
+   TsScriptFacts.v proves that it is constantly true. *)
+Definition history_holds (h : list hcmd) (vars : list bytes) (cd0 k : bytes) : bool :=
+  let s0 := {| hs_env := setup_env vars; hs_cd := cd0 |} in
+  let s := hrun h s0 in
+  hstate_eqb (hrun (filter (fun c => negb (readonly c)) h) s0) s
+  && bytes_eqb (getenv (hs_env s) k) (pick (last_assign k (hist_assigns h)) (or_empty (list_get vars k)))
+  && match child_env (hs_env s) (hs_cd s) with
+     | Some l =>
+         opt_bytes_eqb (child_lookup pwd_key l) (Some (pick (last_cd h) cd0))
+         && (if forallb api_ok h && regularb k && negb (bytes_eqb k pwd_key)
+             then bytes_eqb (or_empty (child_lookup k l)) (getenv (hs_env s) k)
+             else true)
+     | None => true
+     end.
